@@ -23,6 +23,8 @@ def handle1 (o : Op) : String :=
   | "cmp" =>
     match o.hex? "hash", o.hex? "pw" with
     | some h, some pw =>
+      -- the harness never sends strings with a cost above 6 to Compare (2^cost rounds)
+      if (match cost h with | .ok c => decide (c > 8) | _ => false) then "bad-op-cost-too-large" else
       s!"cost={showRes (fun (c : Int) => toString c) (cost h)} cmp={showRes (fun _ => "ok") (compare h pw)}"
     | _, _ => "bad-op"
   | "cost" =>
